@@ -14,3 +14,6 @@ def check(ctx):
     # 'the pattern listed first' = first position in terminal_ids, built in pattern order
     from .pC01 import priority_rules
     priority_rules(ctx)
+    from .common import cache_foundation, language_foundation
+    language_foundation(ctx)
+    cache_foundation(ctx)
